@@ -106,6 +106,9 @@ func (env *Env) eval(x Expr) V {
 	case *ECond:
 		c := env.evalBool(e.C)
 		a, b := env.eval(e.A), env.eval(e.B)
+		if a.C != nil && b.C != nil {
+			a, b = env.constTo(a, types.Typ[types.Int]), env.constTo(b, types.Typ[types.Int])
+		}
 		a, b = env.unify(a, b)
 		return fc.iteV(c, a, b)
 	case *ECall:
@@ -626,6 +629,18 @@ func (env *Env) callExpr(e *ECall) V {
 		ch := env.eval(e.Args[0])
 		arr := fc.heapGet(env.cur, "ghost:closed", fieldSort(sBool))
 		return boolV(sx("select", arr, ch.T[0]))
+	case "f32bits":
+		argc(1)
+		v := env.eval(e.Args[0])
+		return V{Ty: types.Typ[types.Uint32], T: v.T}
+	case "f64bits":
+		argc(1)
+		v := env.eval(e.Args[0])
+		return V{Ty: types.Typ[types.Uint64], T: v.T}
+	case "unixOf":
+		argc(1)
+		v := env.eval(e.Args[0])
+		return V{Ty: types.Typ[types.Int64], T: v.T}
 	case "sext64":
 		argc(1)
 		v := env.eval(e.Args[0])
@@ -651,11 +666,11 @@ func (env *Env) callExpr(e *ECall) V {
 			if v.C != nil {
 				v = env.constTo(v, pt)
 			}
+			if pt != nil && isIface(pt) && v.Ty != nil && !isIface(v.Ty) {
+				v = fc.makeIface(v, pt)
+			}
 			if pt != nil && v.Ty != nil && len(fc.e.comps(pt)) != len(v.T) {
 				panic(specErr("argument %d of %s: have %v, want %s", i, name, v.Ty, f.Params[i].Ty))
-			}
-			if pt != nil && isIface(pt) && !isIface(v.Ty) {
-				v = fc.makeIface(v, pt)
 			}
 			args = append(args, v)
 		}
@@ -664,7 +679,7 @@ func (env *Env) callExpr(e *ECall) V {
 			if env.depth > 40 {
 				panic(specErr("spec function recursion too deep in %s", name))
 			}
-			sub := &Env{fc: fc, vars: map[string]V{}, bound: env.bound, cur: env.cur, old: env.old, oldAc: env.oldAc, pkg: env.pkg, depth: env.depth + 1}
+			sub := &Env{fc: fc, vars: map[string]V{}, bound: map[string]V{}, cur: env.cur, old: env.old, oldAc: env.oldAc, pkg: env.pkg, depth: env.depth + 1}
 			for i, p := range f.Params {
 				a := args[i]
 				if pt := env.specType(p.Ty); pt != nil {
@@ -686,6 +701,21 @@ func (env *Env) callExpr(e *ECall) V {
 		}
 		// uninterpreted: one SMT function per result component
 		var flat, sorts []string
+		if len(f.Reads) > 0 {
+			// heap-reading function: the heap arrays it may depend on are explicit arguments
+			for _, rk := range fc.readKeys(f) {
+				flat = append(flat, fc.heapGet(env.cur, rk.key, rk.sort))
+				sorts = append(sorts, rk.sort)
+			}
+			memo := "haxiom:" + name + ":" + strings.Join(flat, ",")
+			if !fc.declared[memo] {
+				fc.declared[memo] = true
+				ax := &Env{fc: fc, vars: map[string]V{}, bound: map[string]V{}, cur: env.cur.clone(), old: env.old, oldAc: env.oldAc, pkg: env.pkg}
+				for _, c := range f.Axioms {
+					fc.assumeGlobal(ax.evalBool(c.E))
+				}
+			}
+		}
 		for i, a := range args {
 			cs := fc.e.comps(env.specType(f.Params[i].Ty))
 			for j := range cs {
@@ -1086,4 +1116,53 @@ func identName(dr *ssa.DebugRef) string {
 		return id.Name
 	}
 	return ""
+}
+
+type readKey struct{ key, sort string }
+
+// readKeys: the fixed list of heap arrays a heap-reading spec function depends on.
+func (fc *FnCtx) readKeys(f *SpecFun) []readKey {
+	var out []readKey
+	for _, r := range f.Reads {
+		if strings.HasPrefix(r, "M:") {
+			switch r {
+			case "M:ref":
+				out = append(out, readKey{"M:ref.", memSort(sInt)})
+			case "M:bv8":
+				out = append(out, readKey{"M:bv8.", memSort(sBV(8))})
+			default:
+				panic(specErr("hfun %s: unknown memory class %s", f.Name, r))
+			}
+			continue
+		}
+		parts := strings.Split(r, ".")
+		field := ""
+		if len(parts) == 3 {
+			field = parts[2]
+			r = parts[0] + "." + parts[1]
+		}
+		t, err := fc.e.lookupType(r, nil)
+		if err != nil {
+			panic(specErr("hfun %s: %v", f.Name, err))
+		}
+		sk := fc.e.structKey(t)
+		if field != "" {
+			path, ft, ok := fieldPath(t, field)
+			if !ok {
+				panic(specErr("hfun %s: no field %s in %s", f.Name, field, r))
+			}
+			pre := ""
+			for _, i := range path {
+				pre += fmt.Sprintf("f%d_", i)
+			}
+			for _, c := range fc.e.comps(ft) {
+				out = append(out, readKey{sk + "." + pre + c.Suf, fieldSort(c.Sort)})
+			}
+			continue
+		}
+		for _, c := range fc.e.comps(t) {
+			out = append(out, readKey{sk + "." + c.Suf, fieldSort(c.Sort)})
+		}
+	}
+	return out
 }
